@@ -10,6 +10,8 @@ Open Scope nat_scope.
 
 Section P.
 Variable p : prog.
+Variable par : nat -> option nat.                (* any owner tree *)
+Variable selw : nat -> bool.
 Variable chk : nat -> state -> state * bool.     (* any update_if_necessary *)
 
 (* ---------------------------------------------------------------- paused / disposed: no run *)
@@ -68,6 +70,122 @@ Proof.
   intros Ha. unfold poll_task. destruct (decl_of p e); auto.
   destruct (_ || _); auto.
   unfold POLL_FUEL. cbn [poll_loop]. rewrite (updn_field ealive) by auto. rewrite Ha. reflexivity.
+Qed.
+
+(* the same for what the executor does with a task it took from the queue ([poll_sched] only
+   reorders the run queue afterwards) *)
+Lemma canon_wakes_trace i n0 s : trace (canon_wakes selw i n0 s) = trace s.
+Proof. unfold canon_wakes. destruct (selw i); reflexivity. Qed.
+
+Theorem paused_never_runs_sched e s :
+  epaused (getn s e) = true -> only_diverge s (poll_sched p selw chk e s).
+Proof.
+  intros Hp. unfold poll_sched. eapply only_diverge_trans; [apply paused_never_runs; exact Hp|].
+  apply only_diverge_same. apply canon_wakes_trace.
+Qed.
+
+Theorem disposed_never_runs_sched e s :
+  ealive (getn s e) = false -> trace (poll_sched p selw chk e s) = trace s.
+Proof.
+  intros Ha. unfold poll_sched. rewrite canon_wakes_trace. apply disposed_never_runs; auto.
+Qed.
+
+(* ---------------------------------------------------------------- the owner tree *)
+(* [under o e]: the owner effect e was created under is the owner of o or one of its descendants *)
+Inductive under (o : nat) : nat -> Prop :=
+| under_self : under o o
+| under_step e q : par e = Some q -> is_eff p e = true -> e < length p -> under o q -> under o e.
+
+(* creation order: an owner is created after its parent *)
+Definition wf_par : Prop := forall c q, par c = Some q -> q < c.
+
+Lemma in_children o c :
+  In c (children p par o) <-> c < length p /\ is_eff p c = true /\ par c = Some o.
+Proof.
+  unfold children. rewrite filter_In, in_seq, andb_true_iff. split.
+  - intros (Hc & He & Hp). split; [lia|]. split; auto.
+    destruct (par c) as [q|]; [|discriminate]. apply Nat.eqb_eq in Hp. subst; auto.
+  - intros (Hc & He & Hp). split; [lia|]. split; auto. rewrite Hp. apply Nat.eqb_refl.
+Qed.
+
+Lemma subtree_self f o : In o (subtree p par f o).
+Proof. destruct f; cbn; auto. Qed.
+
+Lemma subtree_child f : forall o q c,
+  In q (subtree p par f o) -> In c (children p par q) -> In c (subtree p par (S f) o).
+Proof.
+  induction f as [|f IH]; intros o q c Hq Hc.
+  - destruct Hq as [<-|[]]. cbn [subtree]. right. apply in_flat_map. exists c. split; auto. apply (subtree_self 0).
+  - cbn [subtree] in Hq. destruct Hq as [<-|Hq].
+    + change (In c (o :: flat_map (subtree p par (S f)) (children p par o))). right.
+      apply in_flat_map. exists c. split; auto. apply subtree_self.
+    + apply in_flat_map in Hq as (k & Hk & Hq).
+      change (In c (o :: flat_map (subtree p par (S f)) (children p par o))). right.
+      apply in_flat_map. exists k. split; auto. apply (IH k q c); auto.
+Qed.
+
+Lemma subtree_mono f : forall o e, In e (subtree p par f o) -> In e (subtree p par (S f) o).
+Proof.
+  induction f as [|f IH]; intros o e He.
+  - destruct He as [<-|[]]. apply subtree_self.
+  - cbn [subtree] in He. destruct He as [<-|He]; [apply subtree_self|].
+    apply in_flat_map in He as (k & Hk & He).
+    change (In e (o :: flat_map (subtree p par (S f)) (children p par o))). right.
+    apply in_flat_map. exists k. split; auto.
+Qed.
+
+Lemma subtree_mono_le f g o e : f <= g -> In e (subtree p par f o) -> In e (subtree p par g o).
+Proof. intros Hle. induction Hle; auto. intros H. apply subtree_mono; auto. Qed.
+
+Lemma under_in_subtree o e : wf_par -> under o e -> o <= e /\ In e (subtree p par (e - o) o).
+Proof.
+  intros Hwf H. induction H as [|e q Hp He Hl Hu [IH1 IH2]].
+  - split; auto. apply subtree_self.
+  - pose proof (Hwf e q Hp) as Hq. split; [lia|].
+    apply (subtree_mono_le (S (q - o))); [lia|].
+    apply (subtree_child (q - o) o q e); auto. apply in_children. auto.
+Qed.
+
+(* Owner::pause / Owner::resume on the owner of o reach every effect below it, however deep *)
+Lemma under_reached o e : wf_par -> under o e -> e < length p ->
+  In e (subtree p par (length p) o).
+Proof.
+  intros Hwf H Hl. destruct (under_in_subtree o e Hwf H) as [Hle Hin].
+  apply (subtree_mono_le (e - o)); [lia|auto].
+Qed.
+
+Lemma set_paused_list b l : forall s x,
+  epaused (getn (fold_left (fun s e => updn e (fun n => set_epaused n b) s) l s) x) =
+  if existsb (Nat.eqb x) l && Nat.ltb x (nlen s) then b else epaused (getn s x).
+Proof.
+  induction l as [|e t IH]; intros s x; cbn [fold_left existsb]; [reflexivity|].
+  rewrite IH, nlen_updn, getn_updn. rewrite (Nat.eqb_sym x e).
+  destruct (Nat.eqb_spec e x) as [->|Hx]; cbn [orb andb].
+  - destruct (Nat.ltb x (nlen s)) eqn:El.
+    + rewrite andb_true_r. destruct (existsb _ t); reflexivity.
+    + rewrite andb_false_r. reflexivity.
+  - reflexivity.
+Qed.
+
+(* [pause_reaches_subtree] / [resume_reaches_subtree]: after Owner::pause (resume) on the owner of
+   o, every effect e created under that owner or under any of its descendants is paused (not
+   paused), whether or not the owners in between were paused themselves; every other effect
+   keeps its flag *)
+Theorem set_paused_tree_reaches b o e s : wf_par -> under o e -> e < length p -> e < nlen s ->
+  epaused (getn (set_paused_tree p par b o s) e) = b.
+Proof.
+  intros Hwf Hu Hl Hn. unfold set_paused_tree. rewrite set_paused_list.
+  assert (Hin : existsb (Nat.eqb e) (subtree p par (length p) o) = true).
+  { apply existsb_exists. exists e. split; [apply under_reached; auto|apply Nat.eqb_refl]. }
+  rewrite Hin. apply Nat.ltb_lt in Hn. rewrite Hn. reflexivity.
+Qed.
+
+Theorem set_paused_tree_others b o e s : ~ In e (subtree p par (length p) o) ->
+  epaused (getn (set_paused_tree p par b o s) e) = epaused (getn s e).
+Proof.
+  intros Hn. unfold set_paused_tree. rewrite set_paused_list.
+  destruct (existsb (Nat.eqb e) (subtree p par (length p) o)) eqn:E; [|reflexivity].
+  apply existsb_exists in E as (x & Hx & Ex). apply Nat.eqb_eq in Ex. subst x. contradiction.
 Qed.
 
 (* ... and nothing revives it: no operation of the model sets [ealive] back (see [dispose],
